@@ -682,12 +682,53 @@ def run_property(here, repo, prop, cfg, tier, seed, tmp, t0):
     else:
         # development runs against a scratch copy never touch the committed evidence
         json.dump(ev, open(os.path.join(tmp, prop + ".evidence.json"), "w"), indent=1)
+    # thorough tier: teeth test -- the seeded faults recorded for this property (seeded/<id>/) that the check is
+    # known to catch must still be reported when applied to a scratch copy of the current tree
+    if tier == "thorough" and not violations and os.path.realpath(repo) == "/repo" and not os.environ.get("VERIF_NO_TEETH"):
+        teeth = teeth_test(here, repo, prop, tmp)
+        ev["coverage"]["teeth_test"] = teeth
+        lost = [t for t in teeth if t["expected"] == "VIOLATION" and t["applied"] and t["rc"] == 0]
+        if os.path.realpath(repo) == "/repo":
+            json.dump(ev, open(os.path.join(here, "evidence", prop + ".json"), "w"), indent=1)
+        if lost:
+            raise Undecided("teeth test: seeded fault(s) %s are no longer reported by this check (machinery regression)" % [t["seed"] for t in lost])
     if violations:
         print("FAIL property=%s : %d/%d obligations discharged, %d violation(s), %.1fs" % (prop, n_disch, n_total, len(violations), wall))
         return 1
     print("OK property=%s : %d/%d obligations discharged%s, vacuity guard %d exits reachable, %.1fs" % (
         prop, n_disch, n_total, (" (%d known finding(s))" % len(known_hits)) if known_hits else "", vac_total - len(vac_unreached), wall))
     return 0
+
+
+def teeth_test(here, repo, prop, tmp):
+    out = []
+    sd = os.path.join(here, "seeded")
+    for d in sorted(os.listdir(sd)) if os.path.isdir(sd) else []:
+        mp = os.path.join(sd, d, "meta.json")
+        if not os.path.exists(mp):
+            continue
+        meta = json.load(open(mp))
+        if meta.get("property") != prop:
+            continue
+        scratch = os.path.join(tmp, "teeth_" + d)
+        os.makedirs(scratch)
+        shutil.copytree(os.path.join(repo, "src"), os.path.join(scratch, "src"))
+        for f in ("Cargo.toml", "Cargo.lock", "README.md"):
+            if os.path.exists(os.path.join(repo, f)):
+                shutil.copy(os.path.join(repo, f), scratch)
+        if os.path.exists(os.path.join(repo, "benches")):
+            shutil.copytree(os.path.join(repo, "benches"), os.path.join(scratch, "benches"))
+        subprocess.run(["git", "init", "-q", "."], cwd=scratch)
+        a = subprocess.run(["git", "apply", "--whitespace=nowarn", os.path.join(sd, d, "patch.diff")], cwd=scratch, stdout=subprocess.PIPE, stderr=subprocess.PIPE)
+        rec = {"seed": d, "expected": meta.get("check_result", {}).get("verdict", "?").split(" ")[0], "applied": a.returncode == 0}
+        if a.returncode == 0:
+            env = dict(os.environ, VERIF_DEV_NOVAC="1", VERIF_TIER="quick")
+            r = subprocess.run([os.path.join(here, "check"), prop, "--repo", scratch, "--tier", "quick"], stdout=subprocess.PIPE, stderr=subprocess.STDOUT, text=True, env=env)
+            rec["rc"] = r.returncode
+            rec["first_line"] = (r.stdout.strip().splitlines() or [""])[0][:200]
+        out.append(rec)
+        shutil.rmtree(scratch, ignore_errors=True)
+    return out
 
 
 def scan_assumptions(results):
